@@ -1,6 +1,7 @@
 package main
 
 import (
+	"encoding/json"
 	"fmt"
 	"strings"
 	"time"
@@ -14,6 +15,28 @@ type plItem struct {
 	Val   string
 	G     [4]string // LWS: before name, after name, after '=', after value
 	Seps  int       // number of separators written after this item (1, or 2 for an empty item); last item: 0 or 1
+}
+
+// JSON form of plItem that keeps non-UTF-8 bytes (see bstr)
+type plItemJ struct {
+	Name  bstr
+	HasEq bool
+	Val   bstr
+	G     [4]string
+	Seps  int
+}
+
+func (it plItem) MarshalJSON() ([]byte, error) {
+	return json.Marshal(plItemJ{bstr(it.Name), it.HasEq, bstr(it.Val), it.G, it.Seps})
+}
+
+func (it *plItem) UnmarshalJSON(d []byte) error {
+	var j plItemJ
+	if err := json.Unmarshal(d, &j); err != nil {
+		return err
+	}
+	*it = plItem{string(j.Name), j.HasEq, string(j.Val), j.G, j.Seps}
+	return nil
 }
 
 type plMode struct {
@@ -571,7 +594,8 @@ func checkC17(r *Run) {
 					cs.Items = append([]plItem(nil), base.Items...)
 					cs.LeadSep = true
 					run(c, &cs)
-					if m.Term == "eoh" || m.Term == "end" {
+					if m.Term == "eoh" || m.Term == "end" || m.Term == "comma" || m.Term == "qm" {
+						// a separator after the last item: an empty last item, skipped like any other, then the terminator
 						cs2 := base
 						cs2.Items = append([]plItem(nil), base.Items...)
 						cs2.Items[len(cs2.Items)-1].Seps = 1
@@ -579,6 +603,29 @@ func checkC17(r *Run) {
 					}
 				}
 			}
+		}
+	})
+	// quoted values: every byte that may appear in a quoted string (HT, SP, printable ASCII except '"', every
+	// byte >= 0x80), plain and - for 0x00..0x7f except CR/LF - as a quoted pair, in every mode incl. the list wrappers
+	parallelFor(r, len(modes)*256*2, func(c *enumCtx, k int) {
+		m, x, esc := modes[k/512], byte(k%256), k%512 >= 256
+		if esc && (x >= 0x80 || x == '\r' || x == '\n') {
+			return
+		}
+		if !esc && (x < 0x20 && x != '\t' || x == '"' || x == 0x7f || x == '\\') {
+			return
+		}
+		v := "\"v"
+		if esc {
+			v += "\\"
+		}
+		v += string([]byte{x}) + "w\""
+		for _, second := range []plItem{{Name: "z", HasEq: true, Val: "1"}, {Name: "lr"}} {
+			cs := c17Case{Mode: m, Cap: -1, Items: []plItem{{Name: "nm", HasEq: true, Val: v, Seps: 1}, second}}
+			if m.Term == "sp" {
+				cs.TermLWS = " "
+			}
+			run(c, &cs)
 		}
 	})
 	// byte classes
